@@ -346,9 +346,25 @@ func c19LineMap(r *an.Run) {
 					posCall = call
 				}
 			}
-			if r.Check(lenCall != nil && write != nil && posCall != nil, short(f)+"|samples", il.If.Pos(), "each line records the buffer length and its own position") {
+			// the line's position: line.Pos(), or the field it returns read directly (line.StartPos)
+			var posBase ssa.Value
+			var posAt ssa.Instruction
+			if posCall != nil {
+				posBase, posAt = posCall.Call.Args[0], posCall
+			} else {
+				for b := range il.Loop.Blocks {
+					for _, in := range b.Instrs {
+						if ld, ok := in.(*ssa.UnOp); ok && ld.Op == token.MUL {
+							if fa, ok := ld.X.(*ssa.FieldAddr); ok && fieldNameOf(fa) == "StartPos" {
+								posBase, posAt = fa.X, ld
+							}
+						}
+					}
+				}
+			}
+			if r.Check(lenCall != nil && write != nil && posBase != nil, short(f)+"|samples", il.If.Pos(), "each line records the buffer length and its own position") {
 				r.Check(an.InstrDominates(lenCall, write), short(f)+"|offset-before-write", lenCall.Pos(), "the offset is sampled BEFORE the line is written (it is the offset of the line's first byte)")
-				r.Check(elemOf(posCall.Call.Args[0], "s", il.Index) && elemOfField(write.Call.Args[1], "s", il.Index, "Text"), short(f)+"|same-line", posCall.Pos(), "offset, position and text belong to the same line")
+				r.Check(elemOf(posBase, "s", il.Index) && elemOfField(write.Call.Args[1], "s", il.Index, "Text"), short(f)+"|same-line", posAt.Pos(), "offset, position and text belong to the same line")
 				msg := il.CoversAll(lenCall, nil)
 				r.Check(msg == "", short(f)+"|all-lines", lenCall.Pos(), "every line of the section gets an entry %s", msg)
 			}
@@ -663,6 +679,37 @@ func splitterKeepsTheLine(r *an.Run) int {
 							tx = st
 						case "p.pos":
 							ps = st
+						}
+					}
+				}
+			}
+			if so == nil || tx == nil || ps == nil {
+				// the reading of one line as a method of its own (p.readLine()), called in the per-line loop
+				for b := range loop.Blocks {
+					for _, in := range b.Instrs {
+						c, ok := in.(ssa.CallInstruction)
+						if !ok {
+							continue
+						}
+						h := an.StaticCallee(c)
+						if h == nil || h == f || !inGroup(f, h) || h.Signature.Recv() == nil {
+							continue
+						}
+						var hs, ht, hp *ssa.Store
+						for _, hin := range an.StoresIn(h) {
+							if st, ok := hin.(*ssa.Store); ok {
+								switch an.Path(st.Addr) {
+								case "p.startOffset":
+									hs = st
+								case "p.text":
+									ht = st
+								case "p.pos":
+									hp = st
+								}
+							}
+						}
+						if hs != nil && ht != nil && hp != nil {
+							so, tx, ps = hs, ht, hp
 						}
 					}
 				}
